@@ -493,12 +493,13 @@ def table(ctx, thorough):
                     why = "operator for argument %d has shape %s / wrong matrix (expected %s)" % (i, tuple(o.shape), tuple(D.shape))
         if why:
             ctx.violation("jacidx/%s" % (idxs,), "jac with idxs=%s: %s" % (idxs, why), {"idxs": str(idxs)})
-    for bad, params in ((1, (a, nd)), (1, (a, 2.0)), ([0, 1], (a, nd))):
+    # (the non-differentiable argument in every position, named by an integer - including 0 -, a list or a tuple)
+    for bad, params in ((1, (a, nd)), (1, (a, 2.0)), ([0, 1], (a, nd)), (0, (nd, a)), (0, (2.0, a)), ([0], (nd, a)), ((1, 0), (nd, a)), (0, (nd, a, b)), ((0,), (2.0, a))):
         n += 1
-        ctx.case(key=("reject", str(bad), type(params[1]).__name__))
+        ctx.case(key=("reject", str(bad), type(params[1]).__name__, type(params[0]).__name__, len(params)))
         for fn_ in (xitorch.grad.jac, xitorch.grad.hess):
             try:
-                fn_(lambda p, q: (p.sum() * q).sum() if not isinstance(q, float) else p.sum() * q, params, idxs=bad)
+                fn_(lambda p, q, *r: (p * q).sum() if not isinstance(p, float) and not isinstance(q, float) else (q.sum() * p if isinstance(p, float) else p.sum() * q), params, idxs=bad)
                 ctx.violation("jacreject", "%s accepted a derivative w.r.t. a non-differentiable argument (idxs=%s)" % (fn_.__name__, bad), {"idxs": str(bad)})
             except TypeError:
                 pass
